@@ -84,6 +84,7 @@ type Case struct {
 	World        *Node             `json:"world"`
 	Oracle       map[string]string `json:"oracle"`
 	OracleGoList map[string]string `json:"oracle_golist"`
+	OracleReal   map[string]string `json:"oracle_package_name_from_path,omitempty"`
 	OracleBad    []string          `json:"oracle_mismatch,omitempty"`
 	Runs         int               `json:"runs"`
 	StubCwd      string            `json:"stub_cwd"`
@@ -99,12 +100,41 @@ type Case struct {
 const protoHead = "syntax = \"proto3\";\n\npackage t;\n\n"
 const protoBody = "message M {\n  int32 f = 1;\n}\n"
 
+const gpLine = "option go_package = \"example.com/gen/x\";\n"
+const protoEnum = "enum E {\n  E_UNSET = 0;\n  E_A = 1;\n}\n"
+const protoService = "service S {\n  rpc Do(M) returns (M);\n}\n"
+
+// gpPositions are the places a canonically spelled, top-level `option go_package = "…";` may
+// sit in a file that declares it (all inside the property's "protos with go_package").
+var gpPositions = []string{"gp", "gpat_first", "gpat_import", "gpat_message", "gpat_enum", "gpat_service",
+	"gpat_last", "gpat_last_nonl", "gpat_comments", "gpat_indent"}
+
 func content(kind string) string {
 	switch kind {
-	case "gp":
-		return protoHead + "option go_package = \"example.com/gen/x\";\n\n" + protoBody
+	case "gp": // header, after the package line
+		return protoHead + gpLine + "\n" + protoBody
+	case "gpat_first": // first line after syntax
+		return "syntax = \"proto3\";\n" + gpLine + "\npackage t;\n\n" + protoBody
+	case "gpat_import": // after the imports
+		return protoHead + "import \"google/protobuf/empty.proto\";\nimport \"other.proto\";\n\n" + gpLine + "\n" + protoBody
+	case "gpat_message": // after a message definition
+		return protoHead + protoBody + "\n" + gpLine + "\n" + protoEnum
+	case "gpat_enum": // after an enum definition
+		return protoHead + protoEnum + "\n" + gpLine + "\n" + protoBody
+	case "gpat_service": // after message and service definitions
+		return protoHead + protoBody + "\n" + protoService + "\n" + gpLine
+	case "gpat_last": // the very last line
+		return protoHead + protoBody + "\n" + protoEnum + "\n" + protoService + "\n\n" + gpLine
+	case "gpat_last_nonl": // last line, file does not end in a newline
+		return protoHead + protoBody + "\n" + protoEnum + "\n" + strings.TrimSuffix(gpLine, "\n")
+	case "gpat_comments": // preceded by blank lines and comments
+		return protoHead + "\n\n// Where the generated code goes.\n/* a block comment\n   over two lines */\n\n\n" + gpLine + "\n" + protoBody
+	case "gpat_indent": // leading white space
+		return protoHead + " \t  " + gpLine + "\n" + protoBody
 	case "nogp":
 		return protoHead + protoBody
+	case "nogp_defs": // several definitions, never an option
+		return protoHead + "import \"other.proto\";\n\n" + protoBody + "\n" + protoEnum + "\n" + protoService
 	case "gofile":
 		return "package p\n"
 	case "gp_commented": // declares nothing, the line scan thinks it does
@@ -122,10 +152,8 @@ func content(kind string) string {
 
 // ground truth: does a file with this content declare option go_package?
 func declaresGP(kind string) bool {
-	return kind == "gp" || kind == "gp_nospace" || kind == "gp_spaces"
+	return kind == "gp" || strings.HasPrefix(kind, "gpat_") || kind == "gp_nospace" || kind == "gp_spaces"
 }
-
-func nearMiss(kind string) bool { return strings.HasPrefix(kind, "gp_") }
 
 // ---------------------------------------------------------------- tree on disk
 
@@ -305,7 +333,7 @@ func spell(root, cwdAbs string, d DirRef) (arg string, clean string, omit bool) 
 	}
 }
 
-func runTree(e *env, sem chan struct{}, id string, spec Spec, flagsets []int, out func(string, Case)) error {
+func runTree(e *env, sem chan struct{}, id string, spec Spec, flagsets []int, realOracle bool, out func(string, Case)) error {
 	sem <- struct{}{}
 	held := true
 	release := func() {
@@ -334,13 +362,24 @@ func runTree(e *env, sem chan struct{}, id string, spec Spec, flagsets []int, ou
 	nfiles, depth := stats(ch, 0)
 	cwdAbs := filepath.Join(root, filepath.FromSlash(spec.Cwd))
 
-	// oracle: PackageNameFromPath per directory holding a .proto file, run from cwd
+	// oracle: the Go package of a directory d of module mod is mod + "/" + rel(d) — that is
+	// what the model and the specification are given.  The real gencommon.PackageNameFromPath
+	// (run from cwd in a helper process) and `go list -e` are compared with it on the sampled
+	// trees (realOracle); in every run the tool's own calls of PackageNameFromPath are checked
+	// through the mappings it emits.
 	dirs := []string{}
 	protoDirs(root, ch, &dirs)
 	sort.Strings(dirs)
-	oracle, golist := map[string]string{}, map[string]string{}
+	oracle, golist, real := map[string]string{}, map[string]string{}, map[string]string{}
 	bad := []string{}
-	if len(dirs) > 0 {
+	for _, d := range dirs {
+		rel, _ := filepath.Rel(root, d)
+		oracle[d] = mod
+		if rel != "." {
+			oracle[d] = mod + "/" + filepath.ToSlash(rel)
+		}
+	}
+	if len(dirs) > 0 && realOracle {
 		var ob bytes.Buffer
 		c := exec.Command(os.Args[0], append([]string{"-pkgof", "-dir", cwdAbs}, dirs...)...)
 		c.Env = e.goenv
@@ -349,13 +388,12 @@ func runTree(e *env, sem chan struct{}, id string, spec Spec, flagsets []int, ou
 		if err := c.Run(); err != nil {
 			return fmt.Errorf("pkgof helper: %w", err)
 		}
-		if err := json.Unmarshal(ob.Bytes(), &oracle); err != nil {
+		if err := json.Unmarshal(ob.Bytes(), &real); err != nil {
 			return fmt.Errorf("pkgof helper output: %w", err)
 		}
-		// cross-check: a package in directory d of module mod is mod + "/" + rel(d); and where
-		// `go list -e` itself resolves the directory to an import path (it does when the directory
-		// holds Go files; for a directory without Go files it echoes the directory name and
-		// x/tools/go/packages derives the path from the module root) the two must agree as well
+		// where `go list -e` itself resolves the directory to an import path (it does when the
+		// directory holds Go files; for a directory without Go files it echoes the directory name
+		// and x/tools/go/packages derives the path from the module root) it must agree as well
 		var lb bytes.Buffer
 		lc := exec.Command("go", append([]string{"list", "-e", "-f", "{{.Dir}}\t{{.ImportPath}}"}, dirs...)...)
 		lc.Dir = cwdAbs
@@ -369,15 +407,13 @@ func runTree(e *env, sem chan struct{}, id string, spec Spec, flagsets []int, ou
 			}
 		}
 		for _, d := range dirs {
-			rel, _ := filepath.Rel(root, d)
-			want := mod
-			if rel != "." {
-				want = mod + "/" + filepath.ToSlash(rel)
-			}
-			if oracle[d] != want || (golist[d] != "" && golist[d] != want) {
+			if real[d] != oracle[d] || (golist[d] != "" && golist[d] != oracle[d]) {
 				bad = append(bad, d)
 			}
 		}
+	}
+	if !realOracle {
+		real = nil
 	}
 
 	release()
@@ -391,7 +427,7 @@ func runTree(e *env, sem chan struct{}, id string, spec Spec, flagsets []int, ou
 			defer wg.Done()
 			sem <- struct{}{}
 			defer func() { <-sem }()
-			terms[k], cases[k], errs[k] = runOne(e, id, root, mod, cwdAbs, spec, fs, world, oracle, golist, bad, nfiles, depth)
+			terms[k], cases[k], errs[k] = runOne(e, id, root, mod, cwdAbs, spec, fs, world, oracle, golist, real, bad, nfiles, depth)
 		}(k, fs)
 	}
 	wg.Wait()
@@ -405,7 +441,7 @@ func runTree(e *env, sem chan struct{}, id string, spec Spec, flagsets []int, ou
 }
 
 func runOne(e *env, id, root, mod, cwdAbs string, spec Spec, fs int, world *Node,
-	oracle, golist map[string]string, bad []string, nfiles, depth int) (string, Case, error) {
+	oracle, golist, real map[string]string, bad []string, nfiles, depth int) (string, Case, error) {
 	{
 		s := spec
 		s.Recurse, s.VT, s.GRPC = fs&1 != 0, fs&2 != 0, fs&4 != 0
@@ -469,7 +505,7 @@ func runOne(e *env, id, root, mod, cwdAbs string, spec Spec, fs int, world *Node
 			rc = 124
 		}
 		cs := Case{Kind: s.Kind, Spec: s, Root: root, CwdAbs: cwdAbs, CLIArgs: args, World: world,
-			Oracle: oracle, OracleGoList: golist, OracleBad: bad, RC: rc, NFiles: nfiles, Depth: depth,
+			Oracle: oracle, OracleGoList: golist, OracleReal: real, OracleBad: bad, RC: rc, NFiles: nfiles, Depth: depth,
 			Argv: []string{}}
 		if rc != 0 {
 			msg := eb.String()
@@ -568,8 +604,11 @@ func (g *gen) fill(dir string, depth int, edge bool, inputName string) {
 				name = g.pick(oddProtoNames)
 			}
 			c := "nogp"
-			if g.r.IntN(100) < 40 {
-				c = "gp"
+			switch x := g.r.IntN(100); {
+			case x < 40:
+				c = gpPositions[g.r.IntN(len(gpPositions))]
+			case x < 50:
+				c = "nogp_defs"
 			}
 			if g.add(Entry{Path: join(dir, name), Kind: "file", Content: c}) {
 				g.files++
@@ -740,28 +779,58 @@ func genOOD(r *rand.Rand, i int) Spec {
 	return s
 }
 
+// covering designs over (recurse, vt, grpc): the two halves of the cube; each is a pairwise
+// cover, together they are all 8 settings
+var (
+	coverA = []int{0, 3, 5, 6}
+	coverB = []int{7, 4, 2, 1}
+)
+
 func corpus() []Spec {
-	p := func(s string) Entry { return Entry{Path: s, Kind: "file", Content: "nogp"} }
-	gp := func(s string) Entry { return Entry{Path: s, Kind: "file", Content: "gp"} }
-	tx := func(s string) Entry { return Entry{Path: s, Kind: "file", Content: "plain"} }
+	f := func(s, c string) Entry { return Entry{Path: s, Kind: "file", Content: c} }
+	p := func(s string) Entry { return f(s, "nogp") }
+	gp := func(s string) Entry { return f(s, "gp") }
+	tx := func(s string) Entry { return f(s, "plain") }
 	d := func(s string) Entry { return Entry{Path: s, Kind: "dir"} }
+	// input dir with: sub directory, hidden directory, directory named like the input dir,
+	// directory named *.proto, empty directory; a separate include tree
 	base := []Entry{p("protos/a.proto"), gp("protos/b.proto"), tx("protos/readme.txt"),
-		p("protos/sub/c.proto"), p("protos/.hid/c.proto"), p("protos/protos/a.proto"),
-		p("protos/d.proto/e.proto"), d("protos/empty"), p("inc/j.proto"), p("inc/x/i.proto"), gp("inc/x/k.proto")}
+		p("protos/sub/c.proto"), p("protos/.hid/c.proto"), f("protos/protos/a.proto", "gpat_last"),
+		f("protos/d.proto/e.proto", "gpat_message"), d("protos/empty"),
+		p("inc/j.proto"), p("inc/x/i.proto"), gp("inc/x/k.proto")}
+	// one file per position of the go_package option, in the input dir and below an include
+	positions := []Entry{f("protos/plain.proto", "nogp_defs")}
+	for i, k := range gpPositions {
+		positions = append(positions, f(fmt.Sprintf("protos/pos%d.proto", i), k))
+		if i%3 == 0 {
+			positions = append(positions, f(fmt.Sprintf("inc/deep/pos%d.proto", i), k))
+		}
+	}
+	small := []Entry{p("protos/a.proto"), gp("protos/b.proto"), p("protos/sub/c.proto"),
+		p("inc/j.proto"), p("third_party/lib/l.proto"), p("third_party/lib/v1/m.proto")}
 	return []Spec{
 		// the layout of gogenproto/internal: a proto beside go files, a skipped sub directory
-		{Kind: "corpus", Cwd: ".", Input: DirRef{Path: ".", Form: "default"},
-			Tree: []Entry{p("test.proto"), {Path: "gen_proto.go", Kind: "file", Content: "gofile"},
-				gp("skipped/should_be_skipped.proto")}},
-		{Kind: "corpus", Cwd: ".", Input: DirRef{Path: "protos", Form: "rel"}, Tree: base,
+		{Kind: "corpus", Cwd: ".", Input: DirRef{Path: ".", Form: "default"}, Flagsets: coverA,
+			Tree: []Entry{p("test.proto"), f("gen_proto.go", "gofile"), gp("skipped/should_be_skipped.proto")}},
+		{Kind: "corpus", Cwd: ".", Input: DirRef{Path: "protos", Form: "rel"}, Tree: base, Flagsets: coverB,
 			Includes: []Inc{{Dir: DirRef{Path: "inc", Form: "rel"}, HasPrefix: true, Prefix: "github.com/foo/bar"}}},
-		{Kind: "corpus", Cwd: "protos", Input: DirRef{Path: "protos", Form: "rel"}, Tree: base,
+		// overlapping include paths: the parent of the input dir and a sub directory of it
+		{Kind: "corpus", Cwd: "protos", Input: DirRef{Path: "protos", Form: "rel"}, Tree: base, Flagsets: coverA,
 			Includes: []Inc{{Dir: DirRef{Path: ".", Form: "rel"}}, {Dir: DirRef{Path: "protos/sub", Form: "abs"}, HasPrefix: true, Prefix: "p/q"}}},
-		{Kind: "corpus", Cwd: ".", Input: DirRef{Path: "protos", Form: "abs"}, Tree: base,
+		{Kind: "corpus", Cwd: ".", Input: DirRef{Path: "protos", Form: "abs"}, Tree: base, Flagsets: coverB,
 			Includes: []Inc{{Dir: DirRef{Path: ".", Form: "abs"}}, {Dir: DirRef{Path: "inc", Form: "rel"}, HasPrefix: true, Prefix: ""}}, CommaJoin: true},
-		{Kind: "corpus", Cwd: "tools", Input: DirRef{Path: "protos", Form: "rel"}, Tree: base,
-			Includes: []Inc{{Dir: DirRef{Path: "protos", Form: "rel"}}}},
-		{Kind: "corpus", Cwd: ".", Input: DirRef{Path: "protos", Form: "trailing"}, Tree: []Entry{d("protos")}},
+		// the input dir again as include, with a prefix
+		{Kind: "corpus", Cwd: "tools", Input: DirRef{Path: "protos", Form: "rel"}, Tree: small, Flagsets: coverA,
+			Includes: []Inc{{Dir: DirRef{Path: "protos", Form: "rel"}, HasPrefix: true, Prefix: "example.com/explicit"}}},
+		// unclean spellings of the input dir
+		{Kind: "corpus", Cwd: ".", Input: DirRef{Path: "protos", Form: "trailing"}, Tree: small, Flagsets: []int{0, 3, 5}},
+		// a prefixed include followed by a plain one
+		{Kind: "corpus", Cwd: ".", Input: DirRef{Path: "protos", Form: "dotslash"}, Tree: small, Flagsets: coverB,
+			Includes: []Inc{{Dir: DirRef{Path: "inc", Form: "rel"}, HasPrefix: true, Prefix: "example.com/pfx"},
+				{Dir: DirRef{Path: "third_party/lib", Form: "rel"}}}, CommaJoin: true},
+		// every position of `option go_package = …;`
+		{Kind: "corpus", Cwd: ".", Input: DirRef{Path: "protos", Form: "rel"}, Tree: positions, Flagsets: coverA,
+			Includes: []Inc{{Dir: DirRef{Path: "inc", Form: "abs"}}}},
 	}
 }
 
@@ -795,6 +864,7 @@ func main() {
 	work := flag.String("work", "", "scratch directory for the trees")
 	specFile := flag.String("spec", "", "jsonl of specs (mode spec)")
 	par := flag.Int("par", 16, "parallel trees")
+	osample := flag.Int("oraclesample", 1, "call the real PackageNameFromPath for every K-th tree (always in corpus/spec mode)")
 	pkgof := flag.Bool("pkgof", false, "helper mode")
 	dir := flag.String("dir", "", "helper mode: working directory")
 	flag.Parse()
@@ -858,6 +928,9 @@ func main() {
 			defer wg.Done()
 			defer func() { <-gate }()
 			fsets := specs[i].Flagsets
+			if *mode == "corpus" && *flagsets >= 8 {
+				fsets = nil
+			}
 			if len(fsets) == 0 {
 				if *flagsets >= 8 {
 					fsets = []int{0, 1, 2, 3, 4, 5, 6, 7}
@@ -868,7 +941,8 @@ func main() {
 				}
 			}
 			id := fmt.Sprintf("%s%d", (*mode)[:1], i)
-			results[i].err = runTree(e, sem, id, specs[i], fsets, func(t string, c Case) {
+			realOracle := *mode == "corpus" || *mode == "spec" || *osample <= 1 || i%*osample == 0
+			results[i].err = runTree(e, sem, id, specs[i], fsets, realOracle, func(t string, c Case) {
 				results[i].terms = append(results[i].terms, t)
 				results[i].cases = append(results[i].cases, c)
 			})
